@@ -50,7 +50,8 @@ func ruleC09_1(c *Ctx) {
 		c.Undecided("C09.1", "hit-handler", "the hit-decision function is identifiable", "no function on the exchange calls the freshness calculator")
 		return
 	}
-	assume := map[string]bool{"fr.stale": false, "rq.no-cache": false, "rs.no-cache.ok": false}
+	// "unconstrained": the request carries neither no-cache nor a max-age
+	assume := map[string]bool{"fr.stale": false, "rq.no-cache": false, "rs.no-cache.ok": false, "rq.max-age.ok": false}
 	res := c.An.Forbid(hh, assume, "UPSTREAM", c.An.IsUpstreamSite, true)
 	desc := fmt.Sprintf("under %s the hit decision can only serve: no origin call, no background spawn", assumeString(assume))
 	if len(res.Findings) > 0 {
